@@ -218,6 +218,120 @@ func ifLessInts(fn *ast.FuncDecl, mentions ...string) []int64 {
 }
 
 // lenFieldLess: N of every `len(<x>.field) < N` in fn.
+// slotGuards looks at root and at the functions / methods of the same package that root calls directly: the literal
+// bounds of every `if <ident> < N { … }` whose body writes one of the fields, and the number of writes
+// `x.<field>[i] = …` that are NOT inside such an if.
+func slotGuards(p *pkg, root *ast.FuncDecl, fields ...string) (guards []int64, unguarded int) {
+	fns := []*ast.FuncDecl{root}
+	seen := map[*ast.FuncDecl]bool{root: true}
+	ast.Inspect(root, func(n ast.Node) bool {
+		c, ok := n.(*ast.CallExpr)
+		if !ok {
+			return true
+		}
+		name, _ := calleeName(c)
+		if name == "" {
+			return true
+		}
+		var cands []*ast.FuncDecl
+		if d := p.funcs[name]; d != nil {
+			cands = append(cands, d)
+		}
+		var recvs []string
+		for r := range p.methods {
+			recvs = append(recvs, r)
+		}
+		sort.Strings(recvs)
+		for _, r := range recvs {
+			if d := p.methods[r][name]; d != nil {
+				cands = append(cands, d)
+			}
+		}
+		for _, d := range cands {
+			if !seen[d] && d.Body != nil {
+				seen[d] = true
+				fns = append(fns, d)
+			}
+		}
+		return true
+	})
+	isField := func(e ast.Expr) bool {
+		ix, ok := e.(*ast.IndexExpr)
+		if !ok {
+			return false
+		}
+		sel, ok := ix.X.(*ast.SelectorExpr)
+		if !ok {
+			return false
+		}
+		for _, f := range fields {
+			if sel.Sel.Name == f {
+				return true
+			}
+		}
+		return false
+	}
+	for _, fn := range fns {
+		type span struct{ lo, hi token.Pos }
+		var bodies []span
+		ast.Inspect(fn, func(n ast.Node) bool {
+			is, ok := n.(*ast.IfStmt)
+			if !ok {
+				return true
+			}
+			b, ok := is.Cond.(*ast.BinaryExpr)
+			if !ok || b.Op != token.LSS {
+				return true
+			}
+			if _, isID := b.X.(*ast.Ident); !isID {
+				return true
+			}
+			v, ok := evalInt(b.Y)
+			if !ok {
+				return true
+			}
+			hit := false
+			ast.Inspect(is.Body, func(m ast.Node) bool {
+				if as, ok := m.(*ast.AssignStmt); ok {
+					for _, l := range as.Lhs {
+						if isField(l) {
+							hit = true
+						}
+					}
+				}
+				return !hit
+			})
+			if hit {
+				guards = append(guards, v)
+				bodies = append(bodies, span{is.Body.Pos(), is.Body.End()})
+			}
+			return true
+		})
+		ast.Inspect(fn, func(n ast.Node) bool {
+			as, ok := n.(*ast.AssignStmt)
+			if !ok {
+				return true
+			}
+			for _, l := range as.Lhs {
+				if !isField(l) {
+					continue
+				}
+				in := false
+				for _, sp := range bodies {
+					if l.Pos() >= sp.lo && l.Pos() < sp.hi {
+						in = true
+					}
+				}
+				if !in {
+					unguarded++
+				}
+			}
+			return true
+		})
+	}
+	return guards, unguarded
+}
+
 func lenFieldLess(fn *ast.FuncDecl, field string) []int64 {
 	var out []int64
 	ast.Inspect(fn, func(n ast.Node) bool {
@@ -406,7 +520,8 @@ func fieldStringLit(fn *ast.FuncDecl, field string) string {
 }
 
 type constOut struct {
-	lines []string
+	lines    []string
+	problems [][2]string // constants whose finder failed closed: (name, reason)
 }
 
 func (o *constOut) nat(name string, v int64, from string) {
@@ -428,6 +543,73 @@ func (o *constOut) strs(name string, v []string, from string) {
 	o.lines = append(o.lines, fmt.Sprintf("/-- %s -/\ndef %s : List String := [%s]\n", from, name, strings.Join(q, ", ")))
 }
 
+// constProblems: sections of genConsts that failed closed (written to Gen/PROBLEMS.txt by main)
+var constProblems []string
+
+// cdecl declares a constant a section of genConsts is going to emit.
+type cdecl struct{ name, typ string }
+
+// problemNat is the value of a numeric constant whose finder failed: no model constant has it, so exactly the Tie
+// theorems that mention the constant stop checking (and the properties that do not use it are not affected).
+const problemNat = 4000000007
+
+// section runs one group of finders. If one of them fails closed (fatalf), the constants the section declares are
+// emitted with impossible values that carry the reason, instead of taking every other constant down with them.
+func (o *constOut) section(decls []cdecl, body func()) {
+	start := len(o.lines)
+	defer func() {
+		if r := recover(); r != nil {
+			fe, ok := r.(fatalErr)
+			if !ok {
+				panic(r)
+			}
+			o.lines = o.lines[:start]
+			msg := "EXTRACT-PROBLEM (failing closed): " + fe.msg
+			for _, d := range decls {
+				var v string
+				switch d.typ {
+				case "Nat":
+					v = fmt.Sprint(problemNat)
+				case "String":
+					v = leanStr(msg)
+				case "List String":
+					v = "[" + leanStr(msg) + "]"
+				case "List Nat":
+					v = fmt.Sprintf("[%d]", problemNat)
+				case "List (Nat × Nat)":
+					v = fmt.Sprintf("[(%d, 0)]", problemNat)
+				default:
+					panic("consts: unknown constant type " + d.typ)
+				}
+				o.lines = append(o.lines, fmt.Sprintf("/-- %s -/\ndef %s : %s := %s\n", msg, d.name, d.typ, v))
+				o.problems = append(o.problems, [2]string{d.name, fe.msg})
+			}
+			constProblems = append(constProblems, fmt.Sprintf("Consts.lean %v: %s", declNames(decls), fe.msg))
+			return
+		}
+		// the section must have emitted exactly what it declared
+		got := strings.Join(o.lines[start:], "\n")
+		for _, d := range decls {
+			if !strings.Contains(got, "def "+d.name+" : "+d.typ+" :=") {
+				panic("consts: section did not emit " + d.name + " : " + d.typ)
+			}
+		}
+	}()
+	body()
+}
+
+func declNames(ds []cdecl) []string {
+	var out []string
+	for _, d := range ds {
+		out = append(out, d.name)
+	}
+	return out
+}
+
+func nat1(n string) []cdecl  { return []cdecl{{n, "Nat"}} }
+func str1(n string) []cdecl  { return []cdecl{{n, "String"}} }
+func strs1(n string) []cdecl { return []cdecl{{n, "List String"}} }
+
 func genConsts() string {
 	ps := &pkgs{cache: map[string]*pkg{}}
 	o := &constOut{}
@@ -436,404 +618,474 @@ func genConsts() string {
 	version := ps.get("router/version")
 
 	// ---- router: parameter slots (found by structure, not by the names of locals)
-	slots := []int64{router.fieldArrayLen("Context", "paramKeys"), router.fieldArrayLen("Context", "paramValues")}
-	n0 := len(slots)
-	slots = append(slots, ifLessInts(router.fn("node", "getRoute"), "paramKeys", "paramValues")...)
-	if len(slots)-n0 != 2 {
-		fatalf(token.NoPos, "consts: expected two `if i < N { …paramKeys[i]… }` in (*node).getRoute, found %d", len(slots)-n0)
-	}
-	n0 = len(slots)
-	slots = append(slots, ifLessInts(router.fn("Context", "SetParam"), "paramKeys", "paramValues")...)
-	slots = append(slots, minLits(router.fn("Context", "reset"), "min")...)
-	mae := compiler.fn("CompiledRoute", "matchAndExtract")
-	slots = append(slots, ifLessInts(mae, "SetParam")...)
-	slots = append(slots, minLits(mae, "min")...)
-	if len(slots)-n0 != 4 {
-		fatalf(token.NoPos, "consts: expected the inline slot count once each in SetParam, reset, and twice in matchAndExtract, found %d", len(slots)-n0)
-	}
-	o.nat("router_inlineSlots", agree("the number of inline parameter slots", slots),
-		"len(Context.paramKeys/paramValues), `i < N` guarding the slot writes in (*node).getRoute, SetParam and matchAndExtract, `min(_, N)` in reset and matchAndExtract")
+	o.section(nat1("router_inlineSlots"), func() {
+		slots := []int64{router.fieldArrayLen("Context", "paramKeys"), router.fieldArrayLen("Context", "paramValues")}
+		n0 := len(slots)
+		// every slot write of (*node).getRoute — and of the same-package helpers it calls directly, so that moving the
+		// capture block into a helper keeps the fact — sits inside an `if i < N { … }`; all the N agree
+		guards, unguarded := slotGuards(router, router.fn("node", "getRoute"), "paramKeys", "paramValues")
+		if len(guards) == 0 || unguarded > 0 {
+			fatalf(token.NoPos, "consts: slot writes of (*node).getRoute (and its direct helpers): %d guarded by `if i < N`, %d unguarded", len(guards), unguarded)
+		}
+		slots = append(slots, guards...)
+		n0 = len(slots)
+		slots = append(slots, ifLessInts(router.fn("Context", "SetParam"), "paramKeys", "paramValues")...)
+		slots = append(slots, minLits(router.fn("Context", "reset"), "min")...)
+		mae := compiler.fn("CompiledRoute", "matchAndExtract")
+		slots = append(slots, ifLessInts(mae, "SetParam")...)
+		slots = append(slots, minLits(mae, "min")...)
+		if len(slots)-n0 != 4 {
+			fatalf(token.NoPos, "consts: expected the inline slot count once each in SetParam, reset, and twice in matchAndExtract, found %d", len(slots)-n0)
+		}
+		o.nat("router_inlineSlots", agree("the number of inline parameter slots", slots),
+			"len(Context.paramKeys/paramValues), `i < N` guarding the slot writes in (*node).getRoute, SetParam and matchAndExtract, `min(_, N)` in reset and matchAndExtract")
+	})
 
 	// ---- route compiler
-	o.nat("compiler_minRoutesForIndexing", compiler.constInt("minRoutesForIndexing", nil), "router/compiler: const minRoutesForIndexing")
-	o.nat("compiler_staticDirectThreshold", agree("len(_.staticRoutes) < N", lenFieldLess(compiler.fn("RouteCompiler", "LookupStatic"), "staticRoutes")),
-		"`len(rc.staticRoutes) < N` in LookupStatic: below it the bloom filter is skipped")
-	tbl := append(lenFieldLess(router.fn("CompiledRouteTable", "getRoute"), "routes"), lenFieldLess(router.fn("CompiledRouteTable", "getRouteWithPath"), "routes")...)
-	if len(tbl) != 2 {
-		fatalf(token.NoPos, "consts: expected `len(table.routes) < N` once in getRoute and once in getRouteWithPath")
-	}
-	o.nat("router_tableDirectThreshold", agree("len(table.routes) < N", tbl), "`len(table.routes) < N` in (*CompiledRouteTable).getRoute and getRouteWithPath")
-	// the unique fixed-size local array of matchAndExtract and the literal bound of the loop that fills it
-	var arrs []int64
-	ast.Inspect(mae, func(n ast.Node) bool {
-		if vs, ok := n.(*ast.ValueSpec); ok && vs.Type != nil {
-			if at, ok := vs.Type.(*ast.ArrayType); ok && at.Len != nil {
-				if v, ok := evalInt(at.Len); ok {
-					arrs = append(arrs, v)
-				}
-			}
-		}
-		return true
+	o.section(nat1("compiler_minRoutesForIndexing"), func() {
+		o.nat("compiler_minRoutesForIndexing", compiler.constInt("minRoutesForIndexing", nil), "router/compiler: const minRoutesForIndexing")
 	})
-	if len(arrs) != 1 {
-		fatalf(mae.Pos(), "consts: expected exactly one fixed-size local array in matchAndExtract")
-	}
-	segs := arrs
-	ast.Inspect(mae, func(n ast.Node) bool {
-		if fs, ok := n.(*ast.ForStmt); ok && fs.Cond != nil {
-			ast.Inspect(fs.Cond, func(m ast.Node) bool {
-				if b, ok := m.(*ast.BinaryExpr); ok && b.Op == token.LSS {
-					if v, ok := evalInt(b.Y); ok {
-						segs = append(segs, v)
+	o.section(nat1("compiler_staticDirectThreshold"), func() {
+		o.nat("compiler_staticDirectThreshold", agree("len(_.staticRoutes) < N", lenFieldLess(compiler.fn("RouteCompiler", "LookupStatic"), "staticRoutes")),
+			"`len(rc.staticRoutes) < N` in LookupStatic: below it the bloom filter is skipped")
+	})
+	o.section(nat1("router_tableDirectThreshold"), func() {
+		tbl := append(lenFieldLess(router.fn("CompiledRouteTable", "getRoute"), "routes"), lenFieldLess(router.fn("CompiledRouteTable", "getRouteWithPath"), "routes")...)
+		if len(tbl) != 2 {
+			fatalf(token.NoPos, "consts: expected `len(table.routes) < N` once in getRoute and once in getRouteWithPath")
+		}
+		o.nat("router_tableDirectThreshold", agree("len(table.routes) < N", tbl), "`len(table.routes) < N` in (*CompiledRouteTable).getRoute and getRouteWithPath")
+	})
+	// the unique fixed-size local array of matchAndExtract and the literal bound of the loop that fills it
+	o.section(nat1("compiler_maxSegments"), func() {
+		mae := compiler.fn("CompiledRoute", "matchAndExtract")
+		var arrs []int64
+		ast.Inspect(mae, func(n ast.Node) bool {
+			if vs, ok := n.(*ast.ValueSpec); ok && vs.Type != nil {
+				if at, ok := vs.Type.(*ast.ArrayType); ok && at.Len != nil {
+					if v, ok := evalInt(at.Len); ok {
+						arrs = append(arrs, v)
 					}
 				}
-				return true
-			})
-		}
-		return true
-	})
-	if len(segs) < 2 {
-		fatalf(token.NoPos, "consts: literal loop bound of the segment buffer not found in matchAndExtract")
-	}
-	o.nat("compiler_maxSegments", agree("the segment buffer size", segs), "the `[N]string` segment buffer and the literal bound of the loop that fills it in matchAndExtract")
-	o.nat("router_defaultBloomFilterSize", router.constInt("defaultBloomFilterSize", nil), "router: const defaultBloomFilterSize")
-	o.nat("router_defaultBloomHashFunctions", router.constInt("defaultBloomHashFunctions", nil), "router: const defaultBloomHashFunctions")
-	ob := router.fn("", "optimalBloomFilterSize")
-	var factor, lows, highs, rets []int64
-	ast.Inspect(ob, func(n ast.Node) bool {
-		switch v := n.(type) {
-		case *ast.BinaryExpr:
-			if x, ok := evalInt(v.Y); ok {
-				switch v.Op {
-				case token.MUL:
-					factor = append(factor, x)
-				case token.LSS:
-					lows = append(lows, x)
-				case token.GTR:
-					highs = append(highs, x)
-				}
 			}
-		case *ast.ReturnStmt:
-			if len(v.Results) == 1 {
-				if x, ok := evalInt(v.Results[0]); ok {
-					rets = append(rets, x)
-				}
-			}
+			return true
+		})
+		if len(arrs) != 1 {
+			fatalf(mae.Pos(), "consts: expected exactly one fixed-size local array in matchAndExtract")
 		}
-		return true
-	})
-	if len(factor) != 1 || len(lows) != 1 || len(highs) != 1 || len(rets) != 2 || rets[0] != lows[0] || rets[1] != highs[0] {
-		fatalf(ob.Pos(), "consts: optimalBloomFilterSize is not `x*N; if x < LO {return LO}; if x > HI {return HI}` any more (%v %v %v %v)", factor, lows, highs, rets)
-	}
-	o.nat("router_bloomBitsPerRoute", factor[0], "`routeCount * N` in optimalBloomFilterSize")
-	o.nat("router_bloomMinSize", lows[0], "lower clamp of optimalBloomFilterSize")
-	o.nat("router_bloomMaxSize", highs[0], "upper clamp of optimalBloomFilterSize")
-	o.nat("router_tableBloomMinSize", agree("max(_, N)", minLits(router.fn("node", "compileStaticRoutes"), "max")),
-		"`max(bloomFilterSize, N)` in (*node).compileStaticRoutes")
-
-	// ---- router: methods probed for 405, default wildcard name, sentinels
-	var methodLists [][]string
-	ast.Inspect(router.fn("Router", "getAllowedMethodsForPath"), func(n ast.Node) bool {
-		if cl, ok := n.(*ast.CompositeLit); ok {
-			if at, ok := cl.Type.(*ast.ArrayType); ok && at.Len == nil && isIdent(at.Elt, "string") {
-				methodLists = append(methodLists, stringElems(cl))
-			}
-		}
-		return true
-	})
-	if len(methodLists) != 1 {
-		fatalf(token.NoPos, "consts: expected exactly one []string literal (the probed methods) in getAllowedMethodsForPath")
-	}
-	o.strs("router_standardMethods", methodLists[0], "the []string literal of getAllowedMethodsForPath, in probe order")
-	// default wildcard parameter name: `if x == "" { x = "…" }` in getRoute, and the literal bound to the identifier that
-	// fills the `paramName:` field of the wildcard literal in addRouteWithConstraints
-	var wn []string
-	ast.Inspect(router.fn("node", "getRoute"), func(n ast.Node) bool {
-		if is, ok := n.(*ast.IfStmt); ok && len(is.Body.List) == 1 {
-			if b, ok := is.Cond.(*ast.BinaryExpr); ok && b.Op == token.EQL {
-				if e, ok := strLit(b.Y); ok && e == "" {
-					if as, ok := is.Body.List[0].(*ast.AssignStmt); ok && len(as.Lhs) == 1 && len(as.Rhs) == 1 && src(as.Lhs[0]) == src(b.X) {
-						if v, ok := strLit(as.Rhs[0]); ok {
-							wn = append(wn, v)
+		segs := arrs
+		ast.Inspect(mae, func(n ast.Node) bool {
+			if fs, ok := n.(*ast.ForStmt); ok && fs.Cond != nil {
+				ast.Inspect(fs.Cond, func(m ast.Node) bool {
+					if b, ok := m.(*ast.BinaryExpr); ok && b.Op == token.LSS {
+						if v, ok := evalInt(b.Y); ok {
+							segs = append(segs, v)
 						}
 					}
+					return true
+				})
+			}
+			return true
+		})
+		if len(segs) < 2 {
+			fatalf(token.NoPos, "consts: literal loop bound of the segment buffer not found in matchAndExtract")
+		}
+		o.nat("compiler_maxSegments", agree("the segment buffer size", segs), "the `[N]string` segment buffer and the literal bound of the loop that fills it in matchAndExtract")
+	})
+	o.section(nat1("router_defaultBloomFilterSize"), func() {
+		o.nat("router_defaultBloomFilterSize", router.constInt("defaultBloomFilterSize", nil), "router: const defaultBloomFilterSize")
+	})
+	o.section(nat1("router_defaultBloomHashFunctions"), func() {
+		o.nat("router_defaultBloomHashFunctions", router.constInt("defaultBloomHashFunctions", nil), "router: const defaultBloomHashFunctions")
+	})
+	o.section([]cdecl{{"router_bloomBitsPerRoute", "Nat"}, {"router_bloomMinSize", "Nat"}, {"router_bloomMaxSize", "Nat"}}, func() {
+		ob := router.fn("", "optimalBloomFilterSize")
+		var factor, lows, highs, rets []int64
+		ast.Inspect(ob, func(n ast.Node) bool {
+			switch v := n.(type) {
+			case *ast.BinaryExpr:
+				if x, ok := evalInt(v.Y); ok {
+					switch v.Op {
+					case token.MUL:
+						factor = append(factor, x)
+					case token.LSS:
+						lows = append(lows, x)
+					case token.GTR:
+						highs = append(highs, x)
+					}
+				}
+			case *ast.ReturnStmt:
+				if len(v.Results) == 1 {
+					if x, ok := evalInt(v.Results[0]); ok {
+						rets = append(rets, x)
+					}
 				}
 			}
+			return true
+		})
+		if len(factor) != 1 || len(lows) != 1 || len(highs) != 1 || len(rets) != 2 || rets[0] != lows[0] || rets[1] != highs[0] {
+			fatalf(ob.Pos(), "consts: optimalBloomFilterSize is not `x*N; if x < LO {return LO}; if x > HI {return HI}` any more (%v %v %v %v)", factor, lows, highs, rets)
 		}
-		return true
+		o.nat("router_bloomBitsPerRoute", factor[0], "`routeCount * N` in optimalBloomFilterSize")
+		o.nat("router_bloomMinSize", lows[0], "lower clamp of optimalBloomFilterSize")
+		o.nat("router_bloomMaxSize", highs[0], "upper clamp of optimalBloomFilterSize")
 	})
-	addRoute := router.fn("node", "addRouteWithConstraints")
-	var fillers []string
-	ast.Inspect(addRoute, func(n ast.Node) bool {
-		if kv, ok := n.(*ast.KeyValueExpr); ok && isIdent(kv.Key, "paramName") {
-			if v, ok := strLit(kv.Value); ok {
-				wn = append(wn, v)
-			} else if id, ok := kv.Value.(*ast.Ident); ok {
-				fillers = append(fillers, id.Name)
+	o.section(nat1("router_tableBloomMinSize"), func() {
+		o.nat("router_tableBloomMinSize", agree("max(_, N)", minLits(router.fn("node", "compileStaticRoutes"), "max")),
+			"`max(bloomFilterSize, N)` in (*node).compileStaticRoutes")
+	})
+
+	// ---- router: methods probed for 405, default wildcard name, sentinels
+	o.section(strs1("router_standardMethods"), func() {
+		var methodLists [][]string
+		ast.Inspect(router.fn("Router", "getAllowedMethodsForPath"), func(n ast.Node) bool {
+			if cl, ok := n.(*ast.CompositeLit); ok {
+				if at, ok := cl.Type.(*ast.ArrayType); ok && at.Len == nil && isIdent(at.Elt, "string") {
+					methodLists = append(methodLists, stringElems(cl))
+				}
 			}
+			return true
+		})
+		if len(methodLists) != 1 {
+			fatalf(token.NoPos, "consts: expected exactly one []string literal (the probed methods) in getAllowedMethodsForPath")
 		}
-		return true
+		o.strs("router_standardMethods", methodLists[0], "the []string literal of getAllowedMethodsForPath, in probe order")
 	})
-	for _, f := range fillers {
-		wn = append(wn, assignedStrings([]ast.Node{addRoute}, f)...)
-	}
-	if len(wn) < 2 {
-		fatalf(token.NoPos, "consts: default wildcard parameter name expected in addRouteWithConstraints and getRoute")
-	}
-	o.str("router_wildcardParam", sameStrings("the default wildcard parameter name", wn), "default of the wildcard's paramName in addRouteWithConstraints and getRoute")
-	var serveFns []ast.Node
-	for _, n := range []string{"ServeHTTP", "serveVersionedRequest", "handleNotFound", "handleMethodNotAllowed"} {
-		serveFns = append(serveFns, router.fn("Router", n))
-	}
-	var pats []string
-	for _, nd := range serveFns {
-		ast.Inspect(nd, func(n ast.Node) bool {
-			if as, ok := n.(*ast.AssignStmt); ok {
-				for i, l := range as.Lhs {
-					if sel, ok := l.(*ast.SelectorExpr); ok && sel.Sel.Name == "routePattern" && i < len(as.Rhs) {
-						if v, ok := strLit(as.Rhs[i]); ok {
-							pats = append(pats, v)
+	o.section(str1("router_wildcardParam"), func() {
+		// default wildcard parameter name: `if x == "" { x = "…" }` in getRoute, and the literal bound to the identifier that
+		// fills the `paramName:` field of the wildcard literal in addRouteWithConstraints
+		var wn []string
+		ast.Inspect(router.fn("node", "getRoute"), func(n ast.Node) bool {
+			if is, ok := n.(*ast.IfStmt); ok && len(is.Body.List) == 1 {
+				if b, ok := is.Cond.(*ast.BinaryExpr); ok && b.Op == token.EQL {
+					if e, ok := strLit(b.Y); ok && e == "" {
+						if as, ok := is.Body.List[0].(*ast.AssignStmt); ok && len(as.Lhs) == 1 && len(as.Rhs) == 1 && src(as.Lhs[0]) == src(b.X) {
+							if v, ok := strLit(as.Rhs[0]); ok {
+								wn = append(wn, v)
+							}
 						}
 					}
 				}
 			}
 			return true
 		})
-	}
-	set := map[string]bool{}
-	for _, s := range pats {
-		set[s] = true
-	}
-	var sent []string
-	for s := range set {
-		sent = append(sent, s)
-	}
-	sort.Strings(sent)
-	o.strs("router_sentinelPatterns", sent, "string literals assigned to c.routePattern in ServeHTTP, serveVersionedRequest, handleNotFound, handleMethodNotAllowed (sorted)")
-	var endLabels []string
-	ast.Inspect(router.fn("Router", "handleNotFoundWithObs"), func(n ast.Node) bool {
-		if c, ok := n.(*ast.CallExpr); ok {
-			if name, _ := calleeName(c); name == "OnRequestEnd" && len(c.Args) == 4 {
-				if s, ok := strLit(c.Args[3]); ok {
-					endLabels = append(endLabels, s)
+		addRoute := router.fn("node", "addRouteWithConstraints")
+		var fillers []string
+		ast.Inspect(addRoute, func(n ast.Node) bool {
+			if kv, ok := n.(*ast.KeyValueExpr); ok && isIdent(kv.Key, "paramName") {
+				if v, ok := strLit(kv.Value); ok {
+					wn = append(wn, v)
+				} else if id, ok := kv.Value.(*ast.Ident); ok {
+					fillers = append(fillers, id.Name)
 				}
 			}
+			return true
+		})
+		for _, f := range fillers {
+			wn = append(wn, assignedStrings([]ast.Node{addRoute}, f)...)
 		}
-		return true
+		if len(wn) < 2 {
+			fatalf(token.NoPos, "consts: default wildcard parameter name expected in addRouteWithConstraints and getRoute")
+		}
+		o.str("router_wildcardParam", sameStrings("the default wildcard parameter name", wn), "default of the wildcard's paramName in addRouteWithConstraints and getRoute")
 	})
-	o.str("router_notFoundLabel", sameStrings("the label of handleNotFoundWithObs", endLabels), "label literal of OnRequestEnd in handleNotFoundWithObs")
+	o.section(strs1("router_sentinelPatterns"), func() {
+		var serveFns []ast.Node
+		for _, n := range []string{"ServeHTTP", "serveVersionedRequest", "handleNotFound", "handleMethodNotAllowed"} {
+			serveFns = append(serveFns, router.fn("Router", n))
+		}
+		var pats []string
+		for _, nd := range serveFns {
+			ast.Inspect(nd, func(n ast.Node) bool {
+				if as, ok := n.(*ast.AssignStmt); ok {
+					for i, l := range as.Lhs {
+						if sel, ok := l.(*ast.SelectorExpr); ok && sel.Sel.Name == "routePattern" && i < len(as.Rhs) {
+							if v, ok := strLit(as.Rhs[i]); ok {
+								pats = append(pats, v)
+							}
+						}
+					}
+				}
+				return true
+			})
+		}
+		set := map[string]bool{}
+		for _, s := range pats {
+			set[s] = true
+		}
+		var sent []string
+		for s := range set {
+			sent = append(sent, s)
+		}
+		sort.Strings(sent)
+		o.strs("router_sentinelPatterns", sent, "string literals assigned to c.routePattern in ServeHTTP, serveVersionedRequest, handleNotFound, handleMethodNotAllowed (sorted)")
+	})
+	o.section(str1("router_notFoundLabel"), func() {
+		var endLabels []string
+		ast.Inspect(router.fn("Router", "handleNotFoundWithObs"), func(n ast.Node) bool {
+			if c, ok := n.(*ast.CallExpr); ok {
+				if name, _ := calleeName(c); name == "OnRequestEnd" && len(c.Args) == 4 {
+					if s, ok := strLit(c.Args[3]); ok {
+						endLabels = append(endLabels, s)
+					}
+				}
+			}
+			return true
+		})
+		o.str("router_notFoundLabel", sameStrings("the label of handleNotFoundWithObs", endLabels), "label literal of OnRequestEnd in handleNotFoundWithObs")
+	})
 
 	// ---- router/accept.go
-	o.nat("accept_arenaSpecs", router.fieldArrayLen("headerArena", "specs"), "len(headerArena.specs)")
+	o.section(nat1("accept_arenaSpecs"), func() {
+		o.nat("accept_arenaSpecs", router.fieldArrayLen("headerArena", "specs"), "len(headerArena.specs)")
+	})
 
 	// ---- router/version
-	var ph []string
-	ast.Inspect(version.fn("", "newPathDetector"), func(n ast.Node) bool {
-		if c, ok := n.(*ast.CallExpr); ok {
-			if name, _ := calleeName(c); name == "Index" && len(c.Args) == 2 {
-				if s, ok := strLit(c.Args[1]); ok {
-					ph = append(ph, s)
+	o.section(str1("version_placeholder"), func() {
+		var ph []string
+		ast.Inspect(version.fn("", "newPathDetector"), func(n ast.Node) bool {
+			if c, ok := n.(*ast.CallExpr); ok {
+				if name, _ := calleeName(c); name == "Index" && len(c.Args) == 2 {
+					if s, ok := strLit(c.Args[1]); ok {
+						ph = append(ph, s)
+					}
 				}
 			}
-		}
-		return true
+			return true
+		})
+		o.str("version_placeholder", sameStrings("the version placeholder", ph), "`strings.Index(pattern, \"…\")` in newPathDetector")
 	})
-	o.str("version_placeholder", sameStrings("the version placeholder", ph), "`strings.Index(pattern, \"…\")` in newPathDetector")
 
 	// ---- logging: sensitive keys and the redaction marker
-	logging := ps.get("logging")
-	var keys []string
-	var marker []string
-	ast.Inspect(logging.fn("Logger", "buildReplaceAttr"), func(n ast.Node) bool {
-		cc, ok := n.(*ast.CaseClause)
-		if !ok {
-			return true
-		}
-		for _, st := range cc.Body {
-			if r, ok := st.(*ast.ReturnStmt); ok && len(r.Results) == 1 {
-				if c, ok := r.Results[0].(*ast.CallExpr); ok {
-					if name, _ := calleeName(c); name == "String" && len(c.Args) == 2 {
-						if m, ok := strLit(c.Args[1]); ok {
-							marker = append(marker, m)
-							for _, e := range cc.List {
-								s, ok := strLit(e)
-								if !ok {
-									fatalf(e.Pos(), "consts: non-literal case in buildReplaceAttr")
+	o.section([]cdecl{{"logging_sensitiveKeys", "List String"}, {"logging_redactedValue", "String"}}, func() {
+		logging := ps.get("logging")
+		var keys []string
+		var marker []string
+		ast.Inspect(logging.fn("Logger", "buildReplaceAttr"), func(n ast.Node) bool {
+			cc, ok := n.(*ast.CaseClause)
+			if !ok {
+				return true
+			}
+			for _, st := range cc.Body {
+				if r, ok := st.(*ast.ReturnStmt); ok && len(r.Results) == 1 {
+					if c, ok := r.Results[0].(*ast.CallExpr); ok {
+						if name, _ := calleeName(c); name == "String" && len(c.Args) == 2 {
+							if m, ok := strLit(c.Args[1]); ok {
+								marker = append(marker, m)
+								for _, e := range cc.List {
+									s, ok := strLit(e)
+									if !ok {
+										fatalf(e.Pos(), "consts: non-literal case in buildReplaceAttr")
+									}
+									keys = append(keys, s)
 								}
-								keys = append(keys, s)
 							}
 						}
 					}
 				}
 			}
+			return true
+		})
+		if len(keys) == 0 {
+			fatalf(token.NoPos, "consts: the redacting case clause of buildReplaceAttr was not found")
 		}
-		return true
+		o.strs("logging_sensitiveKeys", keys, "case list of the redacting clause in (*Logger).buildReplaceAttr")
+		o.str("logging_redactedValue", sameStrings("the redaction marker", marker), "value the redacting clause returns")
 	})
-	if len(keys) == 0 {
-		fatalf(token.NoPos, "consts: the redacting case clause of buildReplaceAttr was not found")
-	}
-	o.strs("logging_sensitiveKeys", keys, "case list of the redacting clause in (*Logger).buildReplaceAttr")
-	o.str("logging_redactedValue", sameStrings("the redaction marker", marker), "value the redacting clause returns")
 
 	// ---- errors: reserved members of ProblemDetail.MarshalJSON and the three media types
-	errs := ps.get("errors")
-	mj := errs.fn("ProblemDetail", "MarshalJSON")
-	var reserved []string
-	ast.Inspect(mj, func(n ast.Node) bool {
-		if b, ok := n.(*ast.BinaryExpr); ok && b.Op == token.NEQ {
-			if _, isID := b.X.(*ast.Ident); !isID {
-				return true
+	o.section([]cdecl{{"errors_reservedMembers", "List String"}, {"errors_writtenMembers", "List String"}, {"errors_structMembers", "List String"}}, func() {
+		errs := ps.get("errors")
+		mj := errs.fn("ProblemDetail", "MarshalJSON")
+		var reserved []string
+		ast.Inspect(mj, func(n ast.Node) bool {
+			if b, ok := n.(*ast.BinaryExpr); ok && b.Op == token.NEQ {
+				if _, isID := b.X.(*ast.Ident); !isID {
+					return true
+				}
+				if s, ok := strLit(b.Y); ok {
+					reserved = append(reserved, s)
+				}
 			}
-			if s, ok := strLit(b.Y); ok {
-				reserved = append(reserved, s)
-			}
-		}
-		return true
-	})
-	// the members MarshalJSON itself writes: keys of the map literal and of `m["…"] = …`
-	var written []string
-	ast.Inspect(mj, func(n ast.Node) bool {
-		switch v := n.(type) {
-		case *ast.KeyValueExpr:
-			if s, ok := strLit(v.Key); ok {
-				written = append(written, s)
-			}
-		case *ast.AssignStmt:
-			for _, l := range v.Lhs {
-				if ix, ok := l.(*ast.IndexExpr); ok {
-					if s, ok := strLit(ix.Index); ok {
-						written = append(written, s)
+			return true
+		})
+		// the members MarshalJSON itself writes: keys of the map literal and of `m["…"] = …`
+		var written []string
+		ast.Inspect(mj, func(n ast.Node) bool {
+			switch v := n.(type) {
+			case *ast.KeyValueExpr:
+				if s, ok := strLit(v.Key); ok {
+					written = append(written, s)
+				}
+			case *ast.AssignStmt:
+				for _, l := range v.Lhs {
+					if ix, ok := l.(*ast.IndexExpr); ok {
+						if s, ok := strLit(ix.Index); ok {
+							written = append(written, s)
+						}
 					}
 				}
 			}
+			return true
+		})
+		if len(reserved) == 0 || len(written) == 0 {
+			fatalf(mj.Pos(), "consts: reserved-member guard or member writes of ProblemDetail.MarshalJSON not found")
 		}
-		return true
+		o.strs("errors_reservedMembers", reserved, "the `k != \"…\"` chain that protects reserved members in ProblemDetail.MarshalJSON")
+		o.strs("errors_writtenMembers", written, "members ProblemDetail.MarshalJSON writes itself (map literal keys, then `m[\"…\"] =`)")
+		// json member names of the struct fields (a member added to the struct must also be protected)
+		var members []string
+		if errs.structs["ProblemDetail"] == nil {
+			fatalf(token.NoPos, "consts: struct ProblemDetail not found")
+		}
+		for _, f := range errs.structs["ProblemDetail"].Fields.List {
+			if f.Tag == nil {
+				fatalf(f.Pos(), "consts: ProblemDetail field without a json tag")
+			}
+			tag, _ := strconv.Unquote(f.Tag.Value)
+			i := strings.Index(tag, `json:"`)
+			if i < 0 {
+				fatalf(f.Pos(), "consts: ProblemDetail field without a json tag")
+			}
+			name := tag[i+6:]
+			name = name[:strings.IndexByte(name, '"')]
+			name, _, _ = strings.Cut(name, ",")
+			if name != "-" {
+				members = append(members, name)
+			}
+		}
+		o.strs("errors_structMembers", members, "json member names of the fields of ProblemDetail (without `json:\"-\"`)")
 	})
-	if len(reserved) == 0 || len(written) == 0 {
-		fatalf(mj.Pos(), "consts: reserved-member guard or member writes of ProblemDetail.MarshalJSON not found")
-	}
-	o.strs("errors_reservedMembers", reserved, "the `k != \"…\"` chain that protects reserved members in ProblemDetail.MarshalJSON")
-	o.strs("errors_writtenMembers", written, "members ProblemDetail.MarshalJSON writes itself (map literal keys, then `m[\"…\"] =`)")
-	// json member names of the struct fields (a member added to the struct must also be protected)
-	var members []string
-	if errs.structs["ProblemDetail"] == nil {
-		fatalf(token.NoPos, "consts: struct ProblemDetail not found")
-	}
-	for _, f := range errs.structs["ProblemDetail"].Fields.List {
-		if f.Tag == nil {
-			fatalf(f.Pos(), "consts: ProblemDetail field without a json tag")
-		}
-		tag, _ := strconv.Unquote(f.Tag.Value)
-		i := strings.Index(tag, `json:"`)
-		if i < 0 {
-			fatalf(f.Pos(), "consts: ProblemDetail field without a json tag")
-		}
-		name := tag[i+6:]
-		name = name[:strings.IndexByte(name, '"')]
-		name, _, _ = strings.Cut(name, ",")
-		if name != "-" {
-			members = append(members, name)
-		}
-	}
-	o.strs("errors_structMembers", members, "json member names of the fields of ProblemDetail (without `json:\"-\"`)")
-	o.str("errors_ctRFC9457", fieldStringLit(errs.fn("RFC9457", "Format"), "ContentType"), "ContentType of (*RFC9457).Format")
-	o.str("errors_ctJSONAPI", fieldStringLit(errs.fn("JSONAPI", "Format"), "ContentType"), "ContentType of (*JSONAPI).Format")
-	o.str("errors_ctSimple", fieldStringLit(errs.fn("Simple", "Format"), "ContentType"), "ContentType of (*Simple).Format")
+	o.section(str1("errors_ctRFC9457"), func() {
+		o.str("errors_ctRFC9457", fieldStringLit(ps.get("errors").fn("RFC9457", "Format"), "ContentType"), "ContentType of (*RFC9457).Format")
+	})
+	o.section(str1("errors_ctJSONAPI"), func() {
+		o.str("errors_ctJSONAPI", fieldStringLit(ps.get("errors").fn("JSONAPI", "Format"), "ContentType"), "ContentType of (*JSONAPI).Format")
+	})
+	o.section(str1("errors_ctSimple"), func() {
+		o.str("errors_ctSimple", fieldStringLit(ps.get("errors").fn("Simple", "Format"), "ContentType"), "ContentType of (*Simple).Format")
+	})
 
 	// ---- validation, binding, middleware
-	o.nat("validation_maxRecursionDepth", ps.get("validation").constInt("maxRecursionDepth", nil), "validation: const maxRecursionDepth")
-	binding := ps.get("binding")
-	o.nat("binding_defaultMaxDepth", binding.constInt("DefaultMaxDepth", nil), "binding: const DefaultMaxDepth")
-	o.nat("binding_defaultMaxMapSize", binding.constInt("DefaultMaxMapSize", nil), "binding: const DefaultMaxMapSize")
-	o.nat("binding_defaultMaxSliceLen", binding.constInt("DefaultMaxSliceLen", nil), "binding: const DefaultMaxSliceLen")
-	o.nat("compression_sniffLen", ps.get("middleware/compression").constInt("sniffLen", nil), "middleware/compression: const sniffLen")
-	o.nat("bodylimit_maxEmptyReads", ps.get("middleware/bodylimit").constInt("maxEmptyReads", nil), "middleware/bodylimit: const maxEmptyReads")
-	ba := ps.get("middleware/basicauth")
-	baNew := ba.fn("", "New")
-	var pref []string
-	ast.Inspect(baNew, func(n ast.Node) bool {
-		if c, ok := n.(*ast.CallExpr); ok {
-			if name, _ := calleeName(c); name == "HasPrefix" && len(c.Args) == 2 {
-				if v, ok := strLit(c.Args[1]); ok {
-					pref = append(pref, v)
-				} else if id, ok := c.Args[1].(*ast.Ident); ok {
-					pref = append(pref, ba.constStr(id.Name, baNew))
+	o.section(nat1("validation_maxRecursionDepth"), func() {
+		o.nat("validation_maxRecursionDepth", ps.get("validation").constInt("maxRecursionDepth", nil), "validation: const maxRecursionDepth")
+	})
+	o.section(nat1("binding_defaultMaxDepth"), func() {
+		o.nat("binding_defaultMaxDepth", ps.get("binding").constInt("DefaultMaxDepth", nil), "binding: const DefaultMaxDepth")
+	})
+	o.section(nat1("binding_defaultMaxMapSize"), func() {
+		o.nat("binding_defaultMaxMapSize", ps.get("binding").constInt("DefaultMaxMapSize", nil), "binding: const DefaultMaxMapSize")
+	})
+	o.section(nat1("binding_defaultMaxSliceLen"), func() {
+		o.nat("binding_defaultMaxSliceLen", ps.get("binding").constInt("DefaultMaxSliceLen", nil), "binding: const DefaultMaxSliceLen")
+	})
+	o.section(nat1("compression_sniffLen"), func() {
+		o.nat("compression_sniffLen", ps.get("middleware/compression").constInt("sniffLen", nil), "middleware/compression: const sniffLen")
+	})
+	o.section(nat1("bodylimit_maxEmptyReads"), func() {
+		o.nat("bodylimit_maxEmptyReads", ps.get("middleware/bodylimit").constInt("maxEmptyReads", nil), "middleware/bodylimit: const maxEmptyReads")
+	})
+	o.section(str1("basicauth_prefix"), func() {
+		ba := ps.get("middleware/basicauth")
+		baNew := ba.fn("", "New")
+		var pref []string
+		ast.Inspect(baNew, func(n ast.Node) bool {
+			if c, ok := n.(*ast.CallExpr); ok {
+				if name, _ := calleeName(c); name == "HasPrefix" && len(c.Args) == 2 {
+					if v, ok := strLit(c.Args[1]); ok {
+						pref = append(pref, v)
+					} else if id, ok := c.Args[1].(*ast.Ident); ok {
+						pref = append(pref, ba.constStr(id.Name, baNew))
+					}
 				}
 			}
-		}
-		return true
+			return true
+		})
+		o.str("basicauth_prefix", sameStrings("the Authorization scheme prefix", pref), "what strings.HasPrefix tests the Authorization header against in basicauth.New")
 	})
-	o.str("basicauth_prefix", sameStrings("the Authorization scheme prefix", pref), "what strings.HasPrefix tests the Authorization header against in basicauth.New")
 
 	// ---- openapi: response-code pattern and the component-name character class
-	validate := ps.get("openapi/validate")
-	pe := validate.valueSpec("validResponseCodePattern", nil)
-	pc, ok := pe.(*ast.CallExpr)
-	if !ok || len(pc.Args) != 1 {
-		fatalf(pe.Pos(), "consts: validResponseCodePattern is not regexp.MustCompile(<literal>)")
-	}
-	pat, ok := strLit(pc.Args[0])
-	if !ok {
-		fatalf(pe.Pos(), "consts: validResponseCodePattern is not regexp.MustCompile(<literal>)")
-	}
-	o.str("openapi_responseCodePattern", pat, "source of validResponseCodePattern")
-	sc := ps.get("openapi/internal/schema").fn("", "sanitizeComponentName")
-	charOf := func(e ast.Expr) (int64, bool) {
-		if b, ok := e.(*ast.BasicLit); ok && b.Kind == token.CHAR {
-			r, _, _, err := strconv.UnquoteChar(b.Value[1:len(b.Value)-1], '\'')
-			return int64(r), err == nil
+	o.section(str1("openapi_responseCodePattern"), func() {
+		validate := ps.get("openapi/validate")
+		pe := validate.valueSpec("validResponseCodePattern", nil)
+		pc, ok := pe.(*ast.CallExpr)
+		if !ok || len(pc.Args) != 1 {
+			fatalf(pe.Pos(), "consts: validResponseCodePattern is not regexp.MustCompile(<literal>)")
 		}
-		return 0, false
-	}
-	var ranges, singles []string
-	var repl []int64
-	ast.Inspect(sc, func(n ast.Node) bool {
-		switch v := n.(type) {
-		case *ast.CaseClause:
-			for _, e := range v.List {
-				b, ok := e.(*ast.BinaryExpr)
-				if !ok {
-					fatalf(e.Pos(), "consts: unhandled case expression in sanitizeComponentName")
-				}
-				if b.Op == token.LAND {
-					l, okL := b.X.(*ast.BinaryExpr)
-					r, okR := b.Y.(*ast.BinaryExpr)
-					if !okL || !okR || l.Op != token.GEQ || r.Op != token.LEQ {
-						fatalf(e.Pos(), "consts: unhandled range test %s", src(e))
-					}
-					lo, ok1 := charOf(l.Y)
-					hi, ok2 := charOf(r.Y)
-					if !ok1 || !ok2 {
-						fatalf(e.Pos(), "consts: unhandled range test %s", src(e))
-					}
-					ranges = append(ranges, fmt.Sprintf("(%d, %d)", lo, hi))
-				} else if b.Op == token.EQL {
-					c, ok := charOf(b.Y)
-					if !ok {
-						fatalf(e.Pos(), "consts: unhandled character test %s", src(e))
-					}
-					singles = append(singles, fmt.Sprint(c))
-				} else {
-					fatalf(e.Pos(), "consts: unhandled case expression %s", src(e))
-				}
-			}
-		case *ast.AssignStmt:
-			if len(v.Lhs) == 1 && len(v.Rhs) == 1 {
-				if _, isIx := v.Lhs[0].(*ast.IndexExpr); isIx {
-					if c, ok := charOf(v.Rhs[0]); ok {
-						repl = append(repl, c)
-					}
-				}
-			}
+		pat, ok := strLit(pc.Args[0])
+		if !ok {
+			fatalf(pe.Pos(), "consts: validResponseCodePattern is not regexp.MustCompile(<literal>)")
 		}
-		return true
+		o.str("openapi_responseCodePattern", pat, "source of validResponseCodePattern")
 	})
-	if len(ranges) == 0 || len(repl) != 1 {
-		fatalf(sc.Pos(), "consts: character class of sanitizeComponentName not recognised")
+	o.section([]cdecl{{"openapi_nameRanges", "List (Nat × Nat)"}, {"openapi_nameSingles", "List Nat"}, {"openapi_nameReplacement", "Nat"}}, func() {
+		sc := ps.get("openapi/internal/schema").fn("", "sanitizeComponentName")
+		charOf := func(e ast.Expr) (int64, bool) {
+			if b, ok := e.(*ast.BasicLit); ok && b.Kind == token.CHAR {
+				r, _, _, err := strconv.UnquoteChar(b.Value[1:len(b.Value)-1], '\'')
+				return int64(r), err == nil
+			}
+			return 0, false
+		}
+		var ranges, singles []string
+		var repl []int64
+		ast.Inspect(sc, func(n ast.Node) bool {
+			switch v := n.(type) {
+			case *ast.CaseClause:
+				for _, e := range v.List {
+					b, ok := e.(*ast.BinaryExpr)
+					if !ok {
+						fatalf(e.Pos(), "consts: unhandled case expression in sanitizeComponentName")
+					}
+					if b.Op == token.LAND {
+						l, okL := b.X.(*ast.BinaryExpr)
+						r, okR := b.Y.(*ast.BinaryExpr)
+						if !okL || !okR || l.Op != token.GEQ || r.Op != token.LEQ {
+							fatalf(e.Pos(), "consts: unhandled range test %s", src(e))
+						}
+						lo, ok1 := charOf(l.Y)
+						hi, ok2 := charOf(r.Y)
+						if !ok1 || !ok2 {
+							fatalf(e.Pos(), "consts: unhandled range test %s", src(e))
+						}
+						ranges = append(ranges, fmt.Sprintf("(%d, %d)", lo, hi))
+					} else if b.Op == token.EQL {
+						c, ok := charOf(b.Y)
+						if !ok {
+							fatalf(e.Pos(), "consts: unhandled character test %s", src(e))
+						}
+						singles = append(singles, fmt.Sprint(c))
+					} else {
+						fatalf(e.Pos(), "consts: unhandled case expression %s", src(e))
+					}
+				}
+			case *ast.AssignStmt:
+				if len(v.Lhs) == 1 && len(v.Rhs) == 1 {
+					if _, isIx := v.Lhs[0].(*ast.IndexExpr); isIx {
+						if c, ok := charOf(v.Rhs[0]); ok {
+							repl = append(repl, c)
+						}
+					}
+				}
+			}
+			return true
+		})
+		if len(ranges) == 0 || len(repl) != 1 {
+			fatalf(sc.Pos(), "consts: character class of sanitizeComponentName not recognised")
+		}
+		o.lines = append(o.lines, fmt.Sprintf("/-- byte ranges sanitizeComponentName keeps -/\ndef openapi_nameRanges : List (Nat × Nat) := [%s]\n", strings.Join(ranges, ", ")))
+		o.lines = append(o.lines, fmt.Sprintf("/-- single bytes sanitizeComponentName keeps -/\ndef openapi_nameSingles : List Nat := [%s]\n", strings.Join(singles, ", ")))
+		o.nat("openapi_nameReplacement", repl[0], "the byte every other byte is replaced with")
+	})
+	// constants whose finder failed closed (empty when everything was found): the Tie theorems that mention one of
+	// them stop checking, the others are not affected
+	{
+		var q []string
+		for _, pr := range o.problems {
+			q = append(q, fmt.Sprintf("(%s, %s)", leanStr(pr[0]), leanStr(pr[1])))
+		}
+		o.lines = append(o.lines, fmt.Sprintf("/-- constants whose finder failed closed on the current source -/\ndef problems : List (String × String) := [%s]\n", strings.Join(q, ", ")))
 	}
-	o.lines = append(o.lines, fmt.Sprintf("/-- byte ranges sanitizeComponentName keeps -/\ndef openapi_nameRanges : List (Nat × Nat) := [%s]\n", strings.Join(ranges, ", ")))
-	o.lines = append(o.lines, fmt.Sprintf("/-- single bytes sanitizeComponentName keeps -/\ndef openapi_nameSingles : List Nat := [%s]\n", strings.Join(singles, ", ")))
-	o.nat("openapi_nameReplacement", repl[0], "the byte every other byte is replaced with")
 
 	var b strings.Builder
 	b.WriteString("/- GENERATED by extract/ from the current working tree — do not edit, not committed.\n   Literals of the Go source that the hand-written models mirror (Tie/Consts*.lean prove `Model.x = Gen.x`). -/\n")
